@@ -272,11 +272,22 @@ func vfC01Episode(rec *evid.Rec, ep int) {
 		case k < 98: // CREATE again over the existing file: its data must survive unless a size is given
 			how := uint32(rng.Intn(3))
 			var sa xdrw.Sattr3
-			trunc := how != 2 && rng.Intn(3) == 0
+			// an explicit size in the initial attributes of an UNCHECKED CREATE sets the size of
+			// the existing file: to zero, smaller, the same or larger (zero-filled)
+			trunc := how != 2 && rng.Intn(2) == 0
+			newSize := 0
 			if trunc {
-				sa.Size = xdrw.U64p(0)
+				switch rng.Intn(4) {
+				case 1:
+					newSize = len(f.data) / 2
+				case 2:
+					newSize = len(f.data)
+				case 3:
+					newSize = len(f.data) + 1 + rng.Intn(40)
+				}
+				sa.Size = xdrw.U64p(uint64(newSize))
 			}
-			ops = append(ops, fmt.Sprintf("CREATE %s again how=%d size0=%v", f.name, how, trunc))
+			ops = append(ops, fmt.Sprintf("CREATE %s again how=%d size=%v(%d)", f.name, how, trunc, newSize))
 			rec.Eval(1)
 			r, err := c.create(root, f.name, how, sa, [8]byte{byte(i)})
 			if err != nil || r == nil {
@@ -284,13 +295,15 @@ func vfC01Episode(rec *evid.Rec, ep int) {
 				return
 			}
 			if r.Status == 0 && trunc && how == 0 {
-				f.data = nil // an explicit size of 0 on UNCHECKED CREATE truncates
+				nd := make([]byte, newSize)
+				copy(nd, f.data)
+				f.data = nd
 			}
 			if r.Status == 0 && r.FHPresent {
 				f.fh = vfFH(r.FH)
 			}
 			checkBackend(f, fmt.Sprintf("CREATE-again-how=%d", how))
-			rec.Distinct(fmt.Sprintf("CREATE-again|how=%d|size0=%v|st=%d|%s", how, trunc, r.Status, cfg))
+			rec.Distinct(fmt.Sprintf("CREATE-again|how=%d|size=%v|st=%d|%s", how, trunc, r.Status, cfg))
 		default: // CREATE another file, or re-look-up the handle
 			if len(files) < 3 {
 				rec.Eval(1)
